@@ -140,6 +140,64 @@ def probe_ctor_sweep(case, seed):
     return {"ok": bool(err <= _tol(ref)), "err": err}
 
 
+def sweepable_params(spec):
+    """(kwarg, index) pairs of the float-valued constructor arguments of a registry Spec: plain floats and the entries of
+    float tuples (linear / polynomial / nonlinear coefficient lists)"""
+    out = []
+    for k, v in spec.kwargs.items():
+        if isinstance(v, bool) or k in ("order", "injection_mode", "num_circle_points"):
+            continue
+        if isinstance(v, float):
+            out.append((k, None))
+        elif isinstance(v, tuple) and v and all(isinstance(x, float) for x in v):
+            out += [(k, i) for i in range(len(v))]
+    return out
+
+
+def probe_generic_sweep(name, D, N, order, seed, param, index=None):
+    """eqx.filter_vmap over ONE float constructor argument (traced) vs building the steppers one at a time with Python
+    floats — for any stepper class of the registry and any of its float arguments"""
+    import equinox as eqx
+    import jax.numpy as jnp
+    rng = np.random.default_rng(seed)
+    spec = S.registry()[name](rng, D, N, order)
+    if spec is None:
+        return {"ok": True, "skipped": "dimension"}
+    base = spec.kwargs[param] if index is None else spec.kwargs[param][index]
+    vals = [base * f if base != 0 else f - 1.0 for f in (0.6, 1.0, 1.5)]
+
+    def mk(p):
+        kw = dict(spec.kwargs)
+        if index is None:
+            kw[param] = p
+        else:
+            t = list(kw[param])
+            t[index] = p
+            kw[param] = tuple(t)
+        return spec.cls(*spec.pos, **kw) if spec.pos is not None else spec.cls(spec.D, spec.L, spec.N, spec.dt, **kw)
+    u = jnp.asarray(S.random_state(rng, spec.C, D, N, "noise"))
+    try:
+        ref = np.stack([np.asarray(mk(float(p))(u)) for p in vals])
+    except Exception as e:  # noqa: BLE001
+        return {"ok": True, "skipped": f"eager construction rejects the value: {type(e).__name__}"}
+    if not np.all(np.isfinite(ref)):
+        return {"ok": True, "skipped": "non-finite"}
+    try:
+        sts = eqx.filter_vmap(mk)(jnp.asarray(vals))
+        out = np.asarray(eqx.filter_vmap(lambda s_: s_(u))(sts))
+    except Exception as e:  # noqa: BLE001
+        # a constructor that documents "float or (D,) array" rejects a 0-d ARRAY eagerly as well: then the rejection
+        # under tracing is the same behaviour, not a difference between batched and one-at-a-time evaluation
+        try:
+            mk(jnp.asarray(vals[0]))
+        except Exception as e2:  # noqa: BLE001
+            if type(e2) is type(e):
+                return {"ok": True, "skipped": f"0-d array argument rejected eagerly too ({type(e).__name__})"}
+        return {"ok": False, "exception": f"{type(e).__name__}: {str(e)[:200]}", "values": vals}
+    err = float(np.max(np.abs(out - ref)))
+    return {"ok": bool(err <= _tol(ref) * (1 + 1e-4 * spec.zmax())), "err": err, "values": vals}
+
+
 SWEEPS = ["Advection.velocity", "Diffusion.diffusivity", "Burgers.diffusivity", "KuramotoSivashinsky.dt",
           "GeneralVorticityConvectionStepper.injection_scale"]
 
@@ -171,6 +229,28 @@ def oracle(ctx, deep):
         if not r["ok"]:
             fails.append({"key": f"C06:ctor-sweep:{case}", "what": f"filter_vmap over {case}: {r}", "probe": "ctor_sweep",
                           "args": {"case": case, "seed": ctx.seed}, "observed": r})
+    # every float constructor argument of every stepper class, traced: quick = a seed-dependent third + the polynomial /
+    # reaction / forcing coefficients, deep = all
+    always = {("FisherKPP", "reactivity"), ("AllenCahn", "third_order_coefficient"), ("GeneralPolynomialStepper", "polynomial_coefficients"),
+              ("GeneralNonlinearStepper", "nonlinear_coefficients"), ("KolmogorovFlowVorticity", "injection_scale"),
+              ("SwiftHohenberg", "reactivity"), ("GrayScott", "feed_rate")}
+    k = 0
+    for idx, name in enumerate(names):
+        D = 2 if "Vorticity" in name else (3 if "Velocity" in name else (idx % 2) + 1)
+        N = {1: 10, 2: 6, 3: 5}[D]
+        order = 0 if name in S.LINEAR else (idx % 4) + 1
+        spec0 = R[name](np.random.default_rng(ctx.seed + idx), D, N, order)
+        if spec0 is None:
+            continue
+        for (param, index) in sweepable_params(spec0):
+            k += 1
+            if not deep and (name, param) not in always and (k + ctx.seed) % 3 != 0:
+                continue
+            r = probe_generic_sweep(name, D, N, order, ctx.seed + idx, param, index)
+            ctx.count(("oracle_param_sweep", name, param, index))
+            if not r["ok"]:
+                fails.append({"key": f"C06:param-sweep:{name}.{param}", "what": f"filter_vmap over {name}({param}{'' if index is None else '[' + str(index) + ']'}=...) differs from building the steppers one at a time: {r}"[:400],
+                              "probe": "generic_sweep", "args": {"name": name, "D": D, "N": N, "order": order, "seed": ctx.seed + idx, "param": param, "index": index}, "observed": r})
     seen, out = set(), []
     for f in fails:
         if f["key"] not in seen:
@@ -180,4 +260,4 @@ def oracle(ctx, deep):
 
 
 def replay(probe, args):
-    return {"invariance": probe_invariance, "ctor_sweep": probe_ctor_sweep}[probe](**args)
+    return {"invariance": probe_invariance, "ctor_sweep": probe_ctor_sweep, "generic_sweep": probe_generic_sweep}[probe](**args)
